@@ -106,6 +106,15 @@ def judge(run, trace, name, strict_too=True, what="sched"):
         return _account(run, recs, res, name, strict_too, what)
 
 
+PER_KEY = {}
+
+
+def _violation(run, key, what, obj):
+    PER_KEY[key] = PER_KEY.get(key, 0) + 1
+    if PER_KEY[key] <= 5:               # a few replay files per failing scenario class are enough
+        run.violation(key, what, obj)
+
+
 def _account(run, recs, res, name, strict_too, what):
     ok, rej_relaxed, tr = res["relaxed"]
     run.add_tlc("Trace_Store relaxed " + name, tr, count_states=False)
@@ -125,7 +134,7 @@ def _account(run, recs, res, name, strict_too, what):
             key = "store:tree:outside-root"
         else:
             key = "store:%s:%s:%s" % (what, rec.get("ev"), res_class(sc, rec, rj["line"] - 1 - start))
-        run.violation(key, "rejected by StoreAbs (relaxed judge) at line %d: %s" % (rj["line"], json.dumps(rec)[:300]),
+        _violation(run, key, "rejected by StoreAbs (relaxed judge) at line %d: %s" % (rj["line"], json.dumps(rec)[:300]),
                       {"part": name, "scenario": sc, "rejected": rec, "strict": False})
     strict_only = []
     if strict_too:
@@ -136,7 +145,7 @@ def _account(run, recs, res, name, strict_too, what):
             if start in bad_relaxed or rj["rec"].get("ev") in ("key", "tree"):
                 continue
             strict_only.append(sc)
-            run.violation("store:lin:check-publish-split:" + overlap_kinds(sc),
+            _violation(run, "store:lin:check-publish-split:" + overlap_kinds(sc),
                           "strict write-once register violated on the real code: a put that passed its existence check "
                           "published over another write (%s); line %d" % (overlap_kinds(sc), rj["line"]),
                           {"part": name, "scenario": sc, "rejected": rj["rec"], "strict": True})
@@ -157,6 +166,9 @@ def res_class(sc, rec, pos):
 def key_class(rec):
     if rec.get("outside"):
         return "escapes-root"
+    segs = "".join("/" if c == 3 else "." if c == 2 else "x" for c in rec.get("key", [])).split("/")
+    if rec.get("valid") and ".." in segs:
+        return "escaping-key-accepted"
     if rec.get("valid") and rec.get("put") == "ok" and rec.get("get") != "same":
         return "no-roundtrip"
     if rec.get("valid") and rec.get("put") == "ok":
@@ -315,6 +327,7 @@ def check(run):
     if so_q:
         raise vlib.ToolError("strict and relaxed judge disagree on a sequential scenario: %s" % json.dumps(so_q[0])[:1500])
     n_x, so_x = outp["rand"]
+    run.cov["rejected_scenarios_by_key"] = dict(PER_KEY)
     run.cov["strict_only_rejections"] = {"schedules": len(so_s), "random": len(so_x)}
     # fidelity of the key rule (explorer vs code): drift, not a verdict
     krecs = read_ndjson(t_k)
